@@ -261,16 +261,6 @@ def _deep(fn, nid, depth=0):
     return txt
 
 
-def _def_event_pos(fn, name):
-    """(block, index) of the declaration / assignment event that defines a single-definition local"""
-    for b, i, e, n in fn.events():
-        if n["k"] == "decl" and any(v["name"] == name and "init" in v for v in n["vars"]):
-            return b, i
-        if n["k"] == "bin" and n["op"] == "=" and fn.kids(e) and fn.nodes[fn.kids(e)[0]]["k"] == "ref" and fn.nodes[fn.kids(e)[0]].get("name") == name:
-            return b, i
-    return None
-
-
 # ---------------------------------------------------------------------------------------------------------------
 def nikolaev(ctx):
     SCQ = X + "detail::nikolaev_scq::"
@@ -308,7 +298,7 @@ def nikolaev(ctx):
                                     # the local is a function of the expected value.  It is FRESH if its definition is re-executed on every way from a failed CAS
                                     # (which refreshes the expected value) back to the CAS; otherwise it is a STALE snapshot: the tail may have been finalized in
                                     # between, so it is evaluated with the previous, unfinalized tail
-                                    dpos = _def_event_pos(fn, o)
+                                    dpos = flow.def_event_pos(fn, o)
                                     cpos = fn.pos().get(e)
                                     fresh = dpos is not None and cpos is not None and (
                                         (dpos[0] == cpos[0] and dpos[1] < cpos[1]) or not fn.event_reaches(e, e, removed_blocks={dpos[0]}))
